@@ -1115,6 +1115,16 @@ var AnalyzerUserArity = &Analyzer{
 			}
 		}
 
+		// The analysis may have run over its own parse of the file, so a
+		// reference is matched to a head by position, not by node.
+		type position struct{ line, col int }
+		resolved := make(map[position]*analysis.Symbol, len(pass.Semantics.References))
+		for _, ref := range pass.Semantics.References {
+			if ref != nil && ref.Source != nil && ref.Source.Line > 0 {
+				resolved[position{ref.Source.Line, ref.Source.Col}] = ref.Symbol
+			}
+		}
+
 		WalkSExprs(pass.Exprs, func(sexpr *lisp.LVal, depth int) {
 			if skipNodes[sexpr] {
 				return
@@ -1123,7 +1133,14 @@ var AnalyzerUserArity = &Analyzer{
 			if head == "" {
 				return
 			}
-			sym := pass.Semantics.RootScope.Lookup(head)
+			// The symbol this head was resolved to where it is written: in
+			// its own package and scope.  Looking the bare name up in the root
+			// scope instead falls back to a same-named function of ANY
+			// package, and reported (f 1) in package alpha against beta:f.
+			var sym *analysis.Symbol
+			if loc := astutil.SourceLoc(sexpr.Cells[0]); loc != nil {
+				sym = resolved[position{loc.Line, loc.Col}]
+			}
 			if sym == nil || sym.Signature == nil || sym.Source == nil {
 				return // unknown or builtin — skip
 			}
